@@ -10,7 +10,7 @@ from . import bitops, extract
 from .ctx import (Ctx, PathEnd, Unsupported, ReturnEx, BreakEx, ContinueEx, PyExc)
 from .vals import (is_sym, is_intlike, is_boollike, is_strlike, to_int, to_bool, to_str,
                    zand, zor, znot, zite, Code, SBytes, SStream, SRec, SObj, SList, SDict,
-                   SFunc, BoundMethod, StructRef, Opaque, SGen, IntS, BoolS, StrS, ArrS)
+                   SFunc, BoundMethod, StructRef, Opaque, SGen, SOpt, IntS, BoolS, StrS, ArrS)
 
 _MISSING = object()
 
@@ -92,6 +92,8 @@ class Interp:
         self.comp_ordinals = {}
         self.not_evaluable = []
         self.nonneg_vars = set()
+        self.bound_ids = set()
+        self.bound_refs = []
         self.comp_specs = {}
         self.ghost = {}
         self.nyield = 0
@@ -211,6 +213,16 @@ class Interp:
         return self.ev(e.body if self.ctx.branch(c) else e.orelse, fr)
 
     def ite(self, c, a, b):
+        if isinstance(a, SOpt) or isinstance(b, SOpt):
+            def parts(v, other):
+                if isinstance(v, SOpt):
+                    return v.isnone, v.val
+                if v is None:
+                    return True, (other.val if isinstance(other, SOpt) else None)
+                return False, v
+            an, av = parts(a, b)
+            bn, bv = parts(b, a)
+            return SOpt(zite(c, an, bn), av if av is bv else self.ite(c, av, bv))
         if isinstance(a, Code) and isinstance(b, Code):
             return Code(zite(c, a.isname, b.isname), zite(c, a.name, b.name), zite(c, a.raw, b.raw))
         if isinstance(a, SRec) and isinstance(b, SRec):
@@ -233,6 +245,11 @@ class Interp:
                         None if same else z3.If(c, a.tag_term(), b.tag_term()), present)
         if isinstance(a, tuple) and isinstance(b, tuple) and len(a) == len(b):
             return tuple(self.ite(c, x, y) for x, y in zip(a, b))
+        if isinstance(a, (SBytes, bytes)) and isinstance(b, (SBytes, bytes)) and (isinstance(a, SBytes) or isinstance(b, SBytes)):
+            sa = a if isinstance(a, SBytes) else self.models.to_sbytes(self, a)
+            sb = b if isinstance(b, SBytes) else self.models.to_sbytes(self, b)
+            arr = sa.arr if sa.arr.eq(sb.arr) else z3.If(c, sa.arr, sb.arr)
+            return SBytes(arr, zite(c, sa.off, sb.off), zite(c, sa.n, sb.n))
         if isinstance(a, (SList, list)) and isinstance(b, (SList, list)) and (isinstance(a, SList) or isinstance(b, SList)):
             def as_slist(v):
                 if isinstance(v, SList):
@@ -249,15 +266,56 @@ class Interp:
                 return SList(el, len(vv), 'lit')
             sa, sb = as_slist(a), as_slist(b)
             return SList(lambda i: self.ite(c, sa.elem(i), sb.elem(i)), zite(c, sa.n, sb.n), sa.name)
-        if isinstance(a, SObj) and isinstance(b, SObj) and a.cls == b.cls and set(a.attrs) == set(b.attrs):
-            return SObj(a.cls, {k: self.ite(c, a.attrs[k], b.attrs[k]) for k in a.attrs})
+        if isinstance(a, SObj) and isinstance(b, SObj) and a.cls == b.cls:
+            # instances of one class merge on the attributes both descriptions carry (a contract
+            # shape lists only the attributes it talks about)
+            return SObj(a.cls, {k: self.ite(c, a.attrs[k], b.attrs[k]) for k in a.attrs if k in b.attrs})
+        if isinstance(a, (SDict, dict)) and isinstance(b, (SDict, dict)) and (isinstance(a, SDict) or isinstance(b, SDict)):
+            def has(d, k):
+                return d.has(k) if isinstance(d, SDict) else (k in d if not is_sym(k) else zor(*[self.equal(k, q) for q in d]))
+
+            def get(d, k):
+                if isinstance(d, SDict):
+                    return d.get(k)
+                if not is_sym(k):
+                    return d.get(k)
+                raise Unsupported('merge of a concrete dict looked up with a symbolic key')
+            def mget(k):
+                ha, hb = has(a, k), has(b, k)
+                if ha is False:
+                    return get(b, k)
+                if hb is False:
+                    return get(a, k)
+                return self.ite(c, get(a, k), get(b, k))
+            return SDict(lambda k: zite(c, has(a, k), has(b, k)), mget, getattr(a, 'name', 'map'))
+        if (isinstance(a, Opaque) or isinstance(b, Opaque)) and self.mentions_bound(c):
+            # under a quantifier no path fork is possible: the component stays uninterpreted
+            return a if isinstance(a, Opaque) else b
         if a is b:
             return a
         try:
             return zite(c, a, b)
         except TypeError:
             # shape join of different kinds: fork instead
+            if self.mentions_bound(c):
+                raise Unsupported('values of different kinds merged under a quantifier-bound condition: %r / %r' % (a, b))
             return a if self.ctx.branch(c) else b
+
+    def mentions_bound(self, c):
+        """the condition contains a quantifier-bound variable of a contract expression"""
+        if not is_sym(c) or not self.bound_ids:
+            return False
+        seen, stack = set(), [c]
+        while stack:
+            t = stack.pop()
+            i = t.get_id()
+            if i in seen:
+                continue
+            seen.add(i)
+            if i in self.bound_ids:
+                return True
+            stack.extend(t.children())
+        return False
 
     def ev_UnaryOp(self, e, fr):
         v = self.ev(e.operand, fr)
@@ -403,6 +461,9 @@ class Interp:
         vs = [z3.Int('%s!q%d' % (n, self.ctx.counter.setdefault('q', 0))) for n in names]
         self.ctx.counter['q'] += 1
         nf = Frame(dict(zip(names, vs)), fr)
+        for v in vs:
+            self.bound_ids.add(v.get_id())
+            self.bound_refs.append(v)       # keeps the term alive: z3 reuses the ids of freed terms
         rng = []
         rest = e.args[1:]
         for v, (lo, hi) in zip(vs, zip(rest[0::2], rest[1::2])):
@@ -412,7 +473,7 @@ class Interp:
             rng.append(to_int(lov) <= v)
             rng.append(v < to_int(hiv))
             if isinstance(lov, int) and lov >= 0:
-                self.nonneg_vars.add(v.get_id())
+                self.nonneg_vars.add(v.get_id())      # (v is kept alive in bound_refs)
         body = self.truth(self.ev(lam.body, nf))
         body = to_bool(body)
         if e.func.id == 'forall':
@@ -474,13 +535,24 @@ class Interp:
             for k, x in enumerate(clauses):
                 goal = self.goal(x, f, {'value': v, '_G_i': i})
                 self.ctx.oblige(self.oname('map', line, k), goal, 'post', line)
+            if spec.get('rep'):
+                # the body may rebuild lazily built caches: their invariants hold after every element
+                from .stmts import gsub as _g
+                for opath, obj in self.models.rep_objects(fr):
+                    for k, t in enumerate(getattr(obj, 'inv_texts', ())):
+                        self.ctx.oblige(self.oname('map-rep-inv[%s]' % opath, line, k),
+                                        self.goal(_g(t), Frame({'self': obj}, None)), 'post', line)
             raise PathEnd()
         from .shapes import _StableNames
         shape = spec['elem']
         base = self.ctx.fname('map%d[]' % line)
         mk = _StableNames(self.ctx)
         res = SList(lambda j, base=base: shape.make(mk, base, to_int(j)), it.n, 'map%d' % line)
+        if spec.get('rep'):
+            self.models.havoc_reps(self, fr)
         jv = z3.Int('j!map%d' % line)
+        self.bound_ids.add(jv.get_id())
+        self.bound_refs.append(jv)
         f = Frame({}, fr)
         self.assign(g.target, it.elem(jv), f)
         for x in clauses:
@@ -574,6 +646,8 @@ class Interp:
 
     # -------------------------------------------------------------- operators
     def truth(self, v):
+        if isinstance(v, SOpt):
+            return zand(znot(v.isnone), self.truth(v.val))
         if isinstance(v, bool):
             return v
         if v is None:
@@ -645,6 +719,14 @@ class Interp:
             if r is int:
                 return znot(l.v.isname)
             return False
+        if isinstance(r, SOpt) and not isinstance(l, SOpt):
+            l, r = r, l
+        if isinstance(l, SOpt):
+            if r is None:
+                return l.isnone
+            if isinstance(r, SOpt):
+                return zor(zand(l.isnone, r.isnone), zand(znot(l.isnone), znot(r.isnone), self.identical(l.val, r.val)))
+            return zand(znot(l.isnone), self.identical(l.val, r))
         if l is None or r is None:
             return l is r
         if isinstance(l, (bool, int, str)) and isinstance(r, (bool, int, str)):
@@ -654,6 +736,14 @@ class Interp:
         return l is r
 
     def equal(self, l, r):
+        if isinstance(r, SOpt) and not isinstance(l, SOpt):
+            l, r = r, l
+        if isinstance(l, SOpt):
+            if r is None:
+                return l.isnone
+            if isinstance(r, SOpt):
+                return zor(zand(l.isnone, r.isnone), zand(znot(l.isnone), znot(r.isnone), self.equal(l.val, r.val)))
+            return zand(znot(l.isnone), self.equal(l.val, r))
         if isinstance(l, Code):
             return l.eq(r)
         if isinstance(r, Code):
